@@ -142,7 +142,7 @@ def effect_prog(ctx, r, p):
         ct = canon_args(canon, p, h, texts)
         body = body_text(h, ct)
         op = f"parse:{h['part']}:{h['kind']}"
-        wrap = (lambda b, name=h["name"]: b) if h["kind"] in ("instantiate", "migrate") else (lambda b, name=h["name"]: "{" + dumps(name) + ":" + b + "}")
+        wrap = (lambda b, name=h["name"]: b) if h["kind"] in ("instantiate", "migrate") else (lambda b, name=T.wire_name(h["name"]): "{" + dumps(name) + ":" + b + "}")
         # 1. unknown member inside the body
         extra = body[:-1] + ("," if h["args"] else "") + "\"zz_extra\":1}"
         o = r.call({"prog": pn, "op": op, "doc": wrap(extra)})
